@@ -812,10 +812,91 @@ theorem isActionMapping_false_of_not_produces (m : Mapping) (h : producesActionK
   | false => rfl
   | true => rw [producesActionKey_of_isActionMapping m ha] at h; cases h
 
-/-- (restated on `producesActionKey` with the fix of D7; it was `isActionMapping m = false`) -/
-theorem addPhase2_nonaction (s : State) (k : Key) (m : Mapping) (h : producesActionKey m = false) :
+/-- `if produces_action_key(m) { release_action_mappings }`: the first block of phase 2 (since the fix of D6 the
+`release_absorbed_keys` block is no longer nested in it) -/
+def ramIf (m : Mapping) (s : State) : State × List Event :=
+  if producesActionKey m then releaseActionMappings s else (s, [])
+
+theorem ramIf_true (m : Mapping) (s : State) (h : producesActionKey m = true) :
+    ramIf m s = releaseActionMappings s := by simp [ramIf, h]
+
+theorem ramIf_false (m : Mapping) (s : State) (h : producesActionKey m = false) :
+    ramIf m s = (s, []) := by simp [ramIf, h]
+
+theorem ramIf_frame (m : Mapping) (s : State) :
+    (ramIf m s).1.inp = s.inp ∧ (ramIf m s).1.active = s.active ∧
+    (ramIf m s).1.absorbed = s.absorbed ∧ (ramIf m s).1.absTrig = s.absTrig ∧
+    (ramIf m s).1.repTrig = s.repTrig := by
+  cases h : producesActionKey m
+  · rw [ramIf_false m s h]; exact ⟨rfl, rfl, rfl, rfl, rfl⟩
+  · rw [ramIf_true m s h]; exact releaseActionMappings_frame s
+
+theorem ramIf_spec {extra : List Key} {s : State} (m : Mapping) (h : IInv extra s) :
+    IInv extra (ramIf m s).1 ∧ IRel s (ramIf m s).1 (ramIf m s).2 := by
+  cases hp : producesActionKey m
+  · rw [ramIf_false m s hp]; exact ⟨h, IRel.refl s⟩
+  · rw [ramIf_true m s hp]; exact releaseActionMappings_spec h
+
+theorem shouldAbsorb_ramIf (m : Mapping) (s : State) (k : Key) :
+    shouldAbsorb (ramIf m s).1 k = shouldAbsorb s k := by
+  simp [shouldAbsorb, (ramIf_frame m s).2.2.2.1]
+
+/-- the condition of the `release_absorbed_keys` block of phase 2 (fix of D6: `|| m.absorbing.len() > 0`) -/
+def absorbsNow (s : State) (k : Key) (m : Mapping) : Bool :=
+  shouldAbsorb s k && (producesActionKey m || decide (m.absorbing.length > 0))
+
+theorem absorbsNow_true_iff (s : State) (k : Key) (m : Mapping) :
+    absorbsNow s k m = true ↔ shouldAbsorb s k = true ∧ (producesActionKey m = true ∨ m.absorbing ≠ []) := by
+  simp [absorbsNow, List.length_pos_iff]
+
+theorem absorbsNow_false_iff (s : State) (k : Key) (m : Mapping) :
+    absorbsNow s k m = false ↔ shouldAbsorb s k = false ∨ (producesActionKey m = false ∧ m.absorbing = []) := by
+  cases h1 : shouldAbsorb s k <;> cases h2 : producesActionKey m <;> simp [absorbsNow, h1, h2]
+
+/-- phase 2 in one equation (all four cases): the `release_absorbed_keys` + consumption block runs on the state
+after the conditional `release_action_mappings` iff `absorbsNow` -/
+theorem addPhase2_eq (s : State) (k : Key) (m : Mapping) :
+    addPhase2 s k m =
+      if absorbsNow s k m then
+        (afterConsume (releaseAbsorbedKeys (ramIf m s).1).1 m,
+          (ramIf m s).2 ++ (releaseAbsorbedKeys (ramIf m s).1).2 ++
+            (consume m (releaseAbsorbedKeys (ramIf m s).1).1.pass).2.2)
+      else ramIf m s := by
+  have h : addPhase2 s k m =
+      if shouldAbsorb (ramIf m s).1 k && (producesActionKey m || decide (m.absorbing.length > 0)) then
+        ((addPhase1 (releaseAbsorbedKeys (ramIf m s).1).1 m).1,
+          (ramIf m s).2 ++ (releaseAbsorbedKeys (ramIf m s).1).2 ++ (addPhase1 (releaseAbsorbedKeys (ramIf m s).1).1 m).2)
+      else ramIf m s := rfl
+  rw [h, shouldAbsorb_ramIf]
+  rfl
+
+theorem addPhase2_run (s : State) (k : Key) (m : Mapping) (h : absorbsNow s k m = true) :
+    addPhase2 s k m =
+        (afterConsume (releaseAbsorbedKeys (ramIf m s).1).1 m,
+          (ramIf m s).2 ++ (releaseAbsorbedKeys (ramIf m s).1).2 ++
+            (consume m (releaseAbsorbedKeys (ramIf m s).1).1.pass).2.2) := by
+  rw [addPhase2_eq, h]; rfl
+
+theorem addPhase2_skip (s : State) (k : Key) (m : Mapping) (h : absorbsNow s k m = false) :
+    addPhase2 s k m = ramIf m s := by
+  rw [addPhase2_eq, h]; rfl
+
+/-- (restated on `producesActionKey` with the fix of D7; it was `isActionMapping m = false`.  Restated with the fix
+of D6: a mapping that is not key-producing leaves the state alone only if it is not absorbing or the trigger is the
+pending absorbing trigger; it was `producesActionKey m = false → addPhase2 s k m = (s, [])`.) -/
+theorem addPhase2_nonaction (s : State) (k : Key) (m : Mapping) (h : producesActionKey m = false)
+    (h2 : m.absorbing = [] ∨ shouldAbsorb s k = false) :
     addPhase2 s k m = (s, []) := by
-  simp [addPhase2, h]
+  rw [addPhase2_skip s k m ((absorbsNow_false_iff s k m).mpr (by grind)), ramIf_false m s h]
+
+/-- the fourth case (new with the fix of D6): not key-producing, absorbing, `should_absorb`:
+`release_absorbed_keys` and the consumption run on `s` itself -/
+theorem addPhase2_nonaction_absorb (s : State) (k : Key) (m : Mapping) (h : producesActionKey m = false)
+    (h1 : m.absorbing ≠ []) (h2 : shouldAbsorb s k = true) :
+    addPhase2 s k m = (afterConsume (releaseAbsorbedKeys s).1 m,
+      (releaseAbsorbedKeys s).2 ++ (consume m (releaseAbsorbedKeys s).1.pass).2.2) := by
+  rw [addPhase2_run s k m ((absorbsNow_true_iff s k m).mpr ⟨h2, Or.inr h1⟩), ramIf_false m s h]
+  rfl
 
 /-- (restated on `producesActionKey` with the fix of D7; it was `isActionMapping m = true`) -/
 theorem addPhase2_absorb (s : State) (k : Key) (m : Mapping) (h : producesActionKey m = true)
@@ -823,13 +904,13 @@ theorem addPhase2_absorb (s : State) (k : Key) (m : Mapping) (h : producesAction
     addPhase2 s k m = (afterConsume (releaseAbsorbedKeys (releaseActionMappings s).1).1 m,
       (releaseActionMappings s).2 ++ (releaseAbsorbedKeys (releaseActionMappings s).1).2 ++
         (consume m (releaseAbsorbedKeys (releaseActionMappings s).1).1.pass).2.2) := by
-  simp [addPhase2, h, shouldAbsorb_ram, h2, addPhase1_eq]
+  rw [addPhase2_run s k m ((absorbsNow_true_iff s k m).mpr ⟨h2, Or.inl h⟩), ramIf_true m s h]
 
 /-- (restated on `producesActionKey` with the fix of D7; it was `isActionMapping m = true`) -/
 theorem addPhase2_noabsorb (s : State) (k : Key) (m : Mapping) (h : producesActionKey m = true)
     (h2 : shouldAbsorb s k = false) :
     addPhase2 s k m = releaseActionMappings s := by
-  simp [addPhase2, h, shouldAbsorb_ram, h2]
+  rw [addPhase2_skip s k m ((absorbsNow_false_iff s k m).mpr (Or.inl h2)), ramIf_true m s h]
 
 /-- (statement changed with the D5 fix: the absorb branch consumes pass-through keys a second time, so
 `extra` must contain `m.to` — it is `m.to` at the only call site — and the relation is the weak `IRelW`) -/
@@ -837,25 +918,22 @@ theorem addPhase2_spec (s : State) (k : Key) (m : Mapping) (h : IInv m.to s) :
     IInv m.to (addPhase2 s k m).1 ∧ IRelW s (addPhase2 s k m).1 (addPhase2 s k m).2 ∧
     (addPhase2 s k m).1.repTrig = s.repTrig ∧
     (∀ x, x ∈ s.inp → (shouldAbsorb s k = true → x ∉ s.absorbed) → x ∈ (addPhase2 s k m).1.inp) := by
-  cases ha : producesActionKey m
-  · rw [addPhase2_nonaction s k m ha]
-    exact ⟨h, IRelW.refl s, rfl, fun x hx _ => hx⟩
-  · have h1 := releaseActionMappings_spec h
-    have hf := releaseActionMappings_frame s
-    cases hb : shouldAbsorb s k
-    · rw [addPhase2_noabsorb s k m ha hb]
-      refine ⟨h1.1, h1.2.toW, hf.2.2.2.2, ?_⟩
-      intro x hx _; rw [hf.1]; exact hx
-    · rw [addPhase2_absorb s k m ha hb]
-      have h2 := releaseAbsorbedKeys_spec _ h1.1
-      have c := consume_spec (releaseAbsorbedKeys (releaseActionMappings s).1).1 m h2.1
-      refine ⟨c.1.mono (by simp), (h1.2.trans h2.2.1).toW.trans (consume_relW _ m h2.1), ?_, ?_⟩
-      · show (releaseAbsorbedKeys (releaseActionMappings s).1).1.repTrig = s.repTrig
-        rw [h2.2.2.2.2.1, hf.2.2.2.2]
-      · intro x hx hna
-        show x ∈ (releaseAbsorbedKeys (releaseActionMappings s).1).1.inp
-        rw [h2.2.2.2.2.2.1 x, hf.1, hf.2.2.1]
-        exact ⟨hx, hna rfl⟩
+  have h1 := ramIf_spec m h
+  have hf := ramIf_frame m s
+  cases hb : absorbsNow s k m
+  · rw [addPhase2_skip s k m hb]
+    refine ⟨h1.1, h1.2.toW, hf.2.2.2.2, ?_⟩
+    intro x hx _; rw [hf.1]; exact hx
+  · rw [addPhase2_run s k m hb]
+    have h2 := releaseAbsorbedKeys_spec _ h1.1
+    have c := consume_spec (releaseAbsorbedKeys (ramIf m s).1).1 m h2.1
+    refine ⟨c.1.mono (by simp), (h1.2.trans h2.2.1).toW.trans (consume_relW _ m h2.1), ?_, ?_⟩
+    · show (releaseAbsorbedKeys (ramIf m s).1).1.repTrig = s.repTrig
+      rw [h2.2.2.2.2.1, hf.2.2.2.2]
+    · intro x hx hna
+      show x ∈ (releaseAbsorbedKeys (ramIf m s).1).1.inp
+      rw [h2.2.2.2.2.2.1 x, hf.1, hf.2.2.1]
+      exact ⟨hx, hna ((absorbsNow_true_iff s k m).mp hb).1⟩
 
 theorem addPhase3_spec (s : State) (k : Key) (m : Mapping) (h : IInv m.to s)
     (hinp : ∀ x, x ∈ m.frm → x ∈ s.inp ∨ x = k) :
